@@ -418,8 +418,7 @@ theorem strStats_le_max (utf8 : Bool) (valid : Bytes → Bool) (N : Nat) (vals :
     · rw [e]; exact tv_length_le utf8 N w
   cases htr : (vals.foldl (strStep utf8 N) ⟨none, none, false⟩).tr with
   | false =>
-    rw [htr] at hR
-    simp only [Bool.false_eq_true, if_false, Option.some.injEq] at hR
+    simp only [htr, Bool.false_eq_true, if_false, Option.some.injEq] at hR
     subst hR
     rw [i6] at htr
     simp only [Bool.false_or, List.any_eq_false, decide_eq_true_eq] at htr
@@ -429,9 +428,12 @@ theorem strStats_le_max (utf8 : Bool) (valid : Bytes → Bool) (N : Nat) (vals :
     rw [this] at hle
     exact hle
   | true =>
-    rw [htr] at hR
-    simp only [if_true] at hR
-    -- v = tv v ++ rest
+    simp only [htr, if_true] at hR
+    have hinc : ∀ (t' t : Bytes), lexLe t' M = true → M.length ≤ t'.length → lexLt (t' ++ t) R = true := by
+      intro t' t h1 h2
+      cases utf8 with
+      | true => exact ext_lt_incU valid M [] t' t R h1 h2 (by simpa using hR)
+      | false => exact ext_lt_inc M t' t R h1 h2 (by simpa using hR)
     have hlt : lexLt v R = true := by
       by_cases hlong : v.length > N
       · have htv : tv utf8 N v = trunc utf8 N v := by unfold tv; rw [if_pos hlong]
@@ -444,15 +446,11 @@ theorem strStats_le_max (utf8 : Bool) (valid : Bytes → Bool) (N : Nat) (vals :
           · exact ⟨v.drop N, (List.take_append_drop _ v).symm⟩
         obtain ⟨rest, hrest⟩ := hpre
         rw [hrest]
-        cases utf8 with
-        | true => exact ext_lt_incU valid M [] _ rest R hle (by omega) hR
-        | false => exact ext_lt_inc M _ rest R hle (by omega) hR
+        exact hinc _ rest hle (by omega)
       · have htv : tv utf8 N v = v := by unfold tv; rw [if_neg hlong]
         rw [htv] at hle
         have hMR : lexLt M R = true := by
-          have := (cases utf8 with
-            | true => ext_lt_incU valid M [] M [] R (lexLe_refl M) (Nat.le_refl _) hR
-            | false => ext_lt_inc M M [] R (lexLe_refl M) (Nat.le_refl _) hR)
+          have := hinc M [] (lexLe_refl M) (Nat.le_refl _)
           simpa using this
         exact lexLt_of_le_of_lt v M R hle hMR
     exact lexLe_of_lt v R hlt
